@@ -184,6 +184,10 @@ def validRun (n : Nat) (el : Elem α) (fb : α → Bool) : List (V α) → List 
   | _, [] => true
   | st, op :: ops => valid n st op && validRun n el fb (step el fb st op) ops
 
+/-- [variant.visit]: `visit(vis, vars...)` is `INVOKE(vis, get<m>(vars)...)` with `m...` = `vars.index()...`: the visitor
+    receives, for every variant, its active alternative (index and value), whatever the alternative counts are -/
+def visitN (vs : List (V α)) : List (Nat × α) := vs.map fun v => (v.idx, v.val)
+
 /-- `get_if<I>` -/
 def getIf (v : V α) (i : Nat) : Option α := if v.idx = i then some v.val else none
 
